@@ -198,7 +198,7 @@ check("C07", "exploration",
 
 # Additions made while strengthening the checks against seeded changes (DESIGN.md §0.6).
 ADD = {
- "C01": " Also: templates with a required patch whose source comes and goes (a template that stops rendering and renders again), a composed kind that rejects some applies, and a lagging composed-resource cache (per read, or until the environment lets it catch up).",
+ "C01": " Also: templates with a required patch whose source comes and goes (a template that stops rendering and renders again), a composed kind that rejects some applies, and a lagging composed-resource cache (per read, or until the environment lets it catch up), providers updating the status of composed resources.",
  "C02": " Also dynamic placements while reconciles run: a composed resource deleted and created again under its name by another owner; control of a composed resource or of an XRD's CRD passing to another owner on the same object, followed by XRD deletion; the still active revision of an earlier incarnation of a package. A write that went through on a copy the reconcile had read as its own gets its own signature (check-then-act family, recorded findings).",
  "C03": " Also: body-less desired entries, P&T compositions that start with anonymous templates and are migrated to named ones (a still-desired resource is recognised by the content of its template), manual cache lag.",
  "C05": " Also: a P&T template whose object the API server rejects as invalid, templates with several readiness checks, compositions that start with anonymous templates (recognised by their content); Ready is judged only for reconciles that got through their composition.",
@@ -206,9 +206,9 @@ ADD = {
  "C07": " Also: external names given and taken away by the user, claims without any unreserved annotation, names recorded on the XR side; at the end of an undisturbed reconcile the claim carries the external name its XR had when the reconcile read it.",
  "C08": " Each run draws one of three worlds: W-claim (above), W-pkg with the dependency resolver (a deleted revision leaves the lock before it loses its finalizer; root packages move between two versions so that inactive revisions are deleted), and the usage world (a composed Usage is finalized only after its using resource is gone); only C08's own oracles speak in the borrowed worlds.",
  "C09": " Also: XRs force-deleted and created again under their name, an uncontrolled or namesake-controlled connection secret left in place of the XR's, connection keys that come and go; the UID the pipeline observed must be the UID controlling the secret written; after an undisturbed claim reconcile the claim's secret equals the XR's secret as read (exact copy, stale keys removed).",
- "C13": " Also: a controller the engine no longer reports although it was never cancelled, and terminating XRs (finalizer, deletion timestamp) among those the watch collector sees.",
+ "C13": " Also: a controller the engine no longer reports although it was never cancelled, and terminating XRs (finalizer, deletion timestamp) among those the watch collector sees; several controllers running under one name; a scheduling point after every unlock (what was read under a lock can be stale when it is acted on).",
  "C15": " Also: packages larger than one gzip block with cache-write failures mid-stream; signature verification switched on with the signature controller played by the environment; a scheduling point inserted by the build-time overlay inside ImageBackend.Init (state shared by concurrent reconciles); bounded liveness: once faults stop, the current revision of every valid package is healthy with exactly the objects its image declares.",
- "C16": " Also: an API-server rejection that starts and stops while revisions are established, package objects deleted out of band, manual activation (inactive revisions that establish ownership), objects controlled by a revision of another package. Ownership is judged on the object as the reconcile left it.",
+ "C16": " Also: an API-server rejection that starts and stops while revisions are established, package objects deleted out of band, manual activation (inactive revisions that establish ownership), objects controlled by a revision of another package. Ownership is judged on the object as the reconcile left it; the package stays a plain owner also when an inactive revision establishes.",
  "C17": " Also: a dependency shared by several parents under bounding constraints, tag lists with gaps in the satisfying set (pre-releases, exclusions, disjoint ranges).",
  "C20": " Also: two initialisations running concurrently, a core CRD with webhook conversion (the shipped CRDs have none), packages hosted on docker.io, and an oracle at issuance: a certificate the initializer issues verifies against, and carries, the CA stored at that moment.",
 }
